@@ -177,6 +177,7 @@ type histRunner struct {
 	gcReleased       int64
 	gcKept           int64
 	reopens          int
+	lostByGCOnly     map[int]bool // colliding keys covered by C13-tombstone-sibling only once a GC pass has run
 	crashes          int
 	deletedFiles     int
 }
@@ -193,7 +194,7 @@ func (r *histRunner) stamp() uint32 {
 }
 
 func newRunner(h *History, opts runOpts) *histRunner {
-	r := &histRunner{h: h, opts: opts, labels: map[string]bool{}, reads: map[string]int{}, ts: 1000, excluded: map[string]int{}, prevVals: map[int][]prevVal{}, staleOK: map[int]string{}, readsAny: map[string]int{}, wroteUnserved: map[int]bool{}}
+	r := &histRunner{h: h, opts: opts, labels: map[string]bool{}, reads: map[string]int{}, ts: 1000, excluded: map[string]int{}, prevVals: map[int][]prevVal{}, staleOK: map[int]string{}, readsAny: map[string]int{}, wroteUnserved: map[int]bool{}, lostByGCOnly: map[int]bool{}}
 	r.model = make([]*mkey, len(h.Cfg.Keys))
 	for i := range r.model {
 		r.model[i] = &mkey{}
@@ -952,9 +953,17 @@ func (r *histRunner) doReopen(op *Op) error {
 			}
 			if hasTomb {
 				for _, k := range g {
-					if r.model[k].State != stAbsent {
-						r.staleOK[k] = "C13-tombstone-sibling"
+					if r.model[k].State == stAbsent {
+						continue
 					}
+					// a live key that the collision table names keeps being found through the table, whatever happened to
+					// the shared tree slot ("unless it is in the collision table"); only a later GC pass, whose not-in-tree
+					// branch ignores the table, can discard its record: until then the finding does not cover it
+					if r.model[k].State == stLive && r.inCollisionTable(k) {
+						r.lostByGCOnly[k] = true
+						continue
+					}
+					r.staleOK[k] = "C13-tombstone-sibling"
 				}
 			}
 		}
@@ -970,6 +979,27 @@ func (r *histRunner) doReopen(op *Op) error {
 		}
 	}
 	return nil
+}
+
+// inCollisionTable reports whether the collision table of the key's bucket has an entry for key k.
+func (r *histRunner) inCollisionTable(k int) bool {
+	key := r.h.Cfg.Keys[k]
+	bkt, served := r.bucketOf(key)
+	if !served {
+		return false
+	}
+	it, _ := bkt.hints.collisions.get(getKeyHash(key), string(key))
+	return it != nil
+}
+
+// afterAnyGCPass: keys that only a GC pass could still lose to the tombstone-sibling finding are covered by it from now on.
+func (r *histRunner) afterAnyGCPass() {
+	for k := range r.lostByGCOnly {
+		if r.staleOK[k] == "" {
+			r.staleOK[k] = "C13-tombstone-sibling"
+		}
+		delete(r.lostByGCOnly, k)
+	}
 }
 
 // scanBucket scans all data files of a bucket with the independent scanner.
@@ -1094,6 +1124,7 @@ func (r *histRunner) doGC(op *Op) error {
 		r.store.gcMgr.gc(bkt, begin, end, op.Merge)
 	}
 	r.gcPasses++
+	r.afterAnyGCPass()
 	r.label("gc")
 	if op.Merge {
 		r.label("gc_merge")
@@ -1232,6 +1263,7 @@ func (r *histRunner) run() (err error) {
 		case "set", "delete", "incr", "rotate":
 			if r.inGrp[op.K] && r.wroteNow {
 				delete(r.staleOK, op.K)
+				delete(r.lostByGCOnly, op.K)
 				if m := r.model[op.K]; m.State == stLive {
 					r.prevVals[op.K] = append(r.prevVals[op.K], prevVal{m.Val, m.Flag})
 				} else if m.State == stDeleted {
